@@ -130,7 +130,7 @@ func (c16) Gen(rs uint64, tier string, race bool) interface{} {
 		c.RefAt = r.Intn(len(c.ExtraRefs) + 1)
 	}
 	ns := r.Range(1, 12)
-	if r.Chance(0.08) {
+	if r.Chance(0.12) {
 		ns = r.Range(52, 70) // more than both 50-slot channels hold
 		c.Policy = r.Pick(PolStarve, PolPCT, PolSticky)
 	}
@@ -202,6 +202,9 @@ func (c16) Gen(rs uint64, tier string, race bool) interface{} {
 			c.BadAt = 0
 		case 1:
 			c.BadAt = ns
+		}
+		if ns > 50 && r.Chance(0.6) {
+			c.BadAt = 50 + r.Intn(ns-49) // behind what the result channel holds: its error meets a full buffer if the consumer is slow
 		}
 	}
 	return c
